@@ -419,11 +419,17 @@ func (g *G) genAssets() {
 			if t.Chance("tpl_header", 1, 3) {
 				comps = append([]any{J{"name": "header", "type": "header/text", "content": "For {{1}}", "display": "", "variables": J{"1": 0}}}, comps...)
 			}
+			tvars := []any{J{"type": "text"}, J{"type": "text"}, J{"type": "text"}}
+			if t.Chance("tpl_media_header", 1, 3) {
+				// a media header: its variable's value becomes an attachment of the message
+				comps = append([]any{J{"name": "header", "type": "header/media", "content": "", "display": "", "variables": J{"1": 3}}}, comps...)
+				tvars = append(tvars, J{"type": []string{"image", "video", "document"}[t.Pick("tpl_media_kind", 3)]})
+			}
 			trs = append(trs, J{
 				"channel":    J{"uuid": s.Channels[0].UUID, "name": s.Channels[0].Name},
 				"locale":     l + "-US",
 				"components": comps,
-				"variables":  []any{J{"type": "text"}, J{"type": "text"}, J{"type": "text"}},
+				"variables":  tvars,
 			})
 		}
 		s.Template = append(s.Template, J{"uuid": tuuid, "name": "welcome", "translations": trs})
